@@ -58,6 +58,7 @@ def one(ctx, A, p, klass, eps, suc, box, bits_vec):
         with core.quiet(), P.forced_seed(bits_vec):
             ph = A.angle_sequence(list(p), eps=eps, suc=suc)
         out = ("ok", [float(x) for x in ph])
+        core.poison(ph)
     except Exception as e:  # noqa
         out = (type(e).__name__, str(e)[:80])
     ctx.count("outcome:" + out[0])
